@@ -824,7 +824,9 @@ def gen_cases(rng, tier: str) -> list[dict]:
     add(loop="maoff", algo="MADDPG", kind="box", num_envs=3, learn_step=2, delay=12, tm=rng.random() < 0.5)
     add(loop="maoff", algo="MATD3", kind="box", num_envs=rng.choice([None, 2, 4]), learn_step=rng.choice([1, 3, 6]),
         tm=rng.random() < 0.6, ckpt=rng.choice([None, 25]))
-    # --- multi-agent on-policy (rollouts of length >= 2, see finding C20-ippo-rollout-length-1)
+    # --- multi-agent on-policy (incl. rollouts of length 1: num_envs >= learn_step, fixed finding C20-ippo-rollout-length-1)
+    add(loop="maon", algo="IPPO", kind="box", num_envs=2, learn_step=rng.choice([1, 2]), evo_steps=rng.choice([8, 12]),
+        max_steps=rng.choice([40, 60]), tm=rng.random() < 0.5, mut="none")
     add(loop="maon", algo="IPPO", kind="box", num_envs=None, learn_step=rng.choice([3, 4, 8]), evo_steps=rng.choice([12, 20]),
         tm=rng.random() < 0.6, mutate_elite=False, mut="none")
     add(loop="maon", algo="IPPO", kind=rng.choice(["box", "multidiscrete", "multibinary"]), num_envs=2,
@@ -854,15 +856,13 @@ def gen_cases(rng, tier: str) -> list[dict]:
                 kw["family"] = rng.choice(["vector", "image", "dict", "tuple"])
         elif loop in ("on", "maon"):
             ne = rng.choice([1, 2, 3, 4]) if loop == "on" else rng.choice([None, 2, 3])
-            ls = rng.choice([2, 3, 4, 6, 8]) if loop == "on" else rng.choice([4, 6, 8])
+            ls = rng.choice([2, 3, 4, 6, 8]) if loop == "on" else rng.choice([1, 2, 4, 6, 8])
             kw.update(num_envs=ne, learn_step=ls, evo_steps=rng.choice([7, 12, 20, 25]), max_steps=rng.choice([40, 60, 100]),
                       ls_spread=rng.choice([0, 0, 1, 3]))
             if loop == "on":
                 kw.update(kind=rng.choice(["discrete", "box", "multidiscrete", "multibinary"]), family=rng.choice(fam_s + ["tuple"]))
             else:
                 kw.update(kind=rng.choice(["box", "multidiscrete", "multibinary"]), mut=rng.choice(["none", "params"]))
-                if (ne or 1) >= ls:
-                    kw["learn_step"] = 2 * (ne or 1)
         elif loop == "offline":
             kw.update(evo_steps=rng.choice([3, 5, 8]), max_steps=rng.choice([10, 20, 24]), family=rng.choice(["vector", "image", "dict"]))
         else:
